@@ -34,17 +34,7 @@ type C19Replay struct {
 	Clause string                `json:"clause"`
 }
 
-// stateChange: a component of a package variable changed while a task was in a call.
-type stateChange struct {
-	global int
-	comp   uintptr
-	root   int
-	call   int
-	objs   map[any]bool
-}
-
 type c19Run struct {
-	changes   []stateChange
 	results   [][]Result
 	findings  map[string]string
 	sched     *simrt.Sched
@@ -112,9 +102,7 @@ func runTasks(tasks []C19Task, s *simrt.Sched, only int) *c19Run {
 				spec := opByName[c.Op]
 				cur := simrt.CurTask()
 				cur.CallIdx = callBase[ti] + ci
-				cur.SyncObjs = nil
 				syncAtCall[cur.ID] = cur.SyncOps
-				callClock := cur.Clock()
 				if spec == nil {
 					run.results[ti][ci] = Result{Panic: "unknown op " + c.Op}
 					continue
@@ -128,56 +116,21 @@ func runTasks(tasks []C19Task, s *simrt.Sched, only int) *c19Run {
 					errObjs = append(errObjs, heldErr{ti, ci, e})
 				}
 				monitor(simrt.CurTask(), "call-end") // attribute state changes to the call that made them
-				s.CommitReads(simrt.CurTask(), callClock)
 			}
 		}, t.order())
 		simTasks = append(simTasks, st)
 	}
 	// monitors, evaluated at every scheduler step
-	stepClock := map[int]uint32{}
-	lastG := simrt.GlobalComponents()
+	lastG := simrt.GlobalHashes()
 	lastA := simrt.DeepHash(allArgs)
 	monitor = func(ran *simrt.Task, reason string) {
 		if ran == nil {
 			return
 		}
-		g := simrt.GlobalComponents()
+		g := simrt.GlobalHashes()
 		for i := range g {
-			if i >= len(lastG) {
-				break
-			}
-			// which first-level components changed? (a different shape - a slice that grew, a
-			// pointer that now points elsewhere - counts as a change of the whole variable)
-			var changed []uintptr
-			same := len(g[i]) == len(lastG[i])
-			if same {
-				for j := range g[i] {
-					if g[i][j].Addr != lastG[i][j].Addr {
-						same = false
-						break
-					}
-				}
-			}
-			if !same {
-				changed = []uintptr{0}
-			} else {
-				for j := range g[i] {
-					if g[i][j].Hash != lastG[i][j].Hash {
-						changed = append(changed, g[i][j].Addr)
-					}
-				}
-			}
-			if len(changed) == 0 {
+			if i >= len(lastG) || g[i] == lastG[i] {
 				continue
-			}
-			// remember who changed which component, and which synchronisation objects that task
-			// has touched in the call so far
-			objs := map[any]bool{}
-			for o := range ran.SyncObjs {
-				objs[o] = true
-			}
-			for _, comp := range changed {
-				run.changes = append(run.changes, stateChange{global: i, comp: comp, root: ran.Root, call: ran.CallIdx, objs: objs})
 			}
 			if ran.SyncOps == syncAtCall[ran.ID] {
 				if _, dup := run.findings["package-state-modified-without-synchronisation"]; !dup {
@@ -189,7 +142,6 @@ func runTasks(tasks []C19Task, s *simrt.Sched, only int) *c19Run {
 			}
 		}
 		lastG = g
-		stepClock[ran.ID] = ran.Clock()
 		if a := simrt.DeepHash(allArgs); a != lastA {
 			if _, dup := run.findings["shared-argument-modified"]; !dup {
 				run.findings["shared-argument-modified"] = fmt.Sprintf("an argument object changed while task %d executed call %d (%s)", ran.ID, ran.CallIdx, callName(tasks, ran.CallIdx))
@@ -218,41 +170,11 @@ func runTasks(tasks []C19Task, s *simrt.Sched, only int) *c19Run {
 			run.results[h.ti][h.ci].ErrLate = h.e.Error()
 		}()
 	}
-	// two tasks changed the same component of a package variable and the calls in which they
-	// did share no synchronisation object: whatever each of them locked, it was not the same
-	// thing (a mutex locked on a copy, two different locks for one datum)
-	for i := 0; i < len(run.changes) && run.findings["package-state-changed-by-two-tasks-without-common-synchronisation"] == ""; i++ {
-		for j := i + 1; j < len(run.changes); j++ {
-			a, b := run.changes[i], run.changes[j]
-			if a.root == b.root || a.global != b.global || !(a.comp == b.comp || a.comp == 0 || b.comp == 0) {
-				continue
-			}
-			common := false
-			for o := range a.objs {
-				if b.objs[o] {
-					common = true
-					break
-				}
-			}
-			if !common && len(a.objs) > 0 && len(b.objs) > 0 {
-				run.findings["package-state-changed-by-two-tasks-without-common-synchronisation"] = fmt.Sprintf("package-level variable %s was changed by task %d in call %d (%s) and by task %d in call %d (%s); each call used synchronisation primitives, but no primitive was common to both",
-					simrt.Globals[a.global].Name, a.root, a.call, callName(tasks, a.call), b.root, b.call, callName(tasks, b.call))
-				break
-			}
-		}
-	}
 	if s.Unowned() {
 		run.unowned = true
 	}
 	if s.Deadlock {
 		run.findings["deadlock"] = "no task runnable although not all tasks finished (all blocking is through simulated primitives)"
-	}
-	for _, r := range s.Races {
-		if _, dup := run.findings["data-race-on-package-variable"]; dup {
-			break
-		}
-		run.findings["data-race-on-package-variable"] = fmt.Sprintf("unordered %s accesses to package variable #%d by task %d (call %d, site %d) and task %d (call %d, site %d)", r.Kind, r.Var, r.TaskA, r.CallA, r.SiteA, r.TaskB, r.CallB, r.SiteB)
-		run.siteIDs = append(run.siteIDs, r.SiteA, r.SiteB)
 	}
 	for _, st := range simTasks {
 		run.yields = append(run.yields, st.Yields)
@@ -285,14 +207,14 @@ func callName(tasks []C19Task, idx int) string {
 }
 
 type c19Eval struct {
-	clauses    map[string]string
-	inter      *c19Run
-	solo       []*c19Run
-	stalled    bool
-	soloNondet int
-	sites      []int
-	overrun    bool
-	orderOnly  int
+	clauses      map[string]string
+	inter        *c19Run
+	solo         []*c19Run
+	stalled      bool
+	soloNondet   int
+	sites        []int
+	overrun      bool
+	orderOnly    int
 	unownedStall bool
 }
 
@@ -560,8 +482,7 @@ func (w *Worker) runC19Case(idx int64) {
 	w.St.Probes["state_changes_under_synchronisation"] += int64(in.stateSync)
 	w.St.Probes["calls_not_repeatable_alone"] += int64(ev.soloNondet)
 	w.St.Probes["set_valued_result_in_another_order"] += int64(ev.orderOnly)
-	w.St.Probes["library_go_statements_simulated"] += int64(in.sched.GoCalls - in.sched.InlineGo)
-	w.St.Probes["library_go_statements_run_inline"] += int64(in.sched.InlineGo)
+	w.St.Probes["library_go_statements_simulated"] += int64(in.sched.GoCalls)
 	w.St.Probes["tasks"] += int64(len(tasks))
 	shared := 0
 	seen := map[uint64]bool{}
